@@ -53,6 +53,8 @@ RunOps(ops, bs, em) ==
       [] o[1] = "loop"      -> [oc |-> "fail", cls |-> "timeout", bs |-> bs, em |-> <<>>, pem |-> em]
       [] o[1] = "retscalar" -> [oc |-> "fail", cls |-> "badreturn", bs |-> bs, em |-> <<>>, pem |-> em]
       [] o[1] = "emitbad"   -> [oc |-> "fail", cls |-> "thrown", bs |-> bs, em |-> <<>>, pem |-> em]
+      [] o[1] = "retgetter" -> [oc |-> "fail", cls |-> "thrown", bs |-> bs, em |-> <<>>, pem |-> em]
+      [] o[1] = "retcyclic" -> [oc |-> "fail", cls |-> "badreturn", bs |-> bs, em |-> <<>>, pem |-> em]
 
 Run(ops, bs) == RunOps(ops, bs, <<>>)
 
